@@ -1922,7 +1922,8 @@ func funcLocaltime(v any) any {
 }
 
 func epochToArray(v float64, loc *time.Location) []any {
-	t := time.Unix(int64(v), int64((v-math.Floor(v))*1e9)).In(loc)
+	sec := math.Floor(v)
+	t := time.Unix(int64(sec), int64((v-sec)*1e9)).In(loc)
 	return []any{
 		t.Year(),
 		int(t.Month()) - 1,
